@@ -58,7 +58,9 @@ MODULE_ONLY = {
 }
 DYNAMIC_BUILTINS = {'eval': 'dynamic.eval', 'exec': 'dynamic.exec', '__import__': 'dynamic.import',
                     'compile': 'dynamic.compile'}
-MIGRATION_ROUTINES = {'_migrate_csv_to_rules', 'migrate_v0_to_v1', 'run_migrations', 'init_config'}
+# routines that write where their caller tells them to: their call sites (guards + where the arguments come from) are tabled too
+MIGRATION_ROUTINES = {'_migrate_csv_to_rules', 'migrate_v0_to_v1', 'run_migrations', 'init_config', 'write_summary_file_vue',
+                      'write_default_sections', 'download_file', 'perform_update'}
 
 
 class ExtractionError(Exception):
@@ -169,6 +171,22 @@ class FileScan(ast.NodeVisitor):
             self.visit(ch)
         self.guards.pop()
 
+    def visit_Try(self, node):
+        caught = ', '.join(ast.unparse(h.type) if h.type is not None else 'BaseException' for h in node.handlers) or 'finally'
+        self.guards.append('try: except ' + caught)
+        for ch in node.body:
+            self.visit(ch)
+        self.guards.pop()
+        for h in node.handlers:
+            self.guards.append('except ' + (ast.unparse(h.type) if h.type is not None else 'BaseException'))
+            for ch in h.body:
+                self.visit(ch)
+            self.guards.pop()
+        for ch in node.orelse + node.finalbody:
+            self.visit(ch)
+
+    visit_TryStar = visit_Try
+
     def visit_IfExp(self, node):
         self.generic_visit(node)
 
@@ -223,9 +241,28 @@ class FileScan(ast.NodeVisitor):
         s = _const_str(mode)
         return s if s is not None else '?'
 
+    PATH_METHOD_KINDS = ('path.', 'mkdir', 'unlink', 'rmdir', 'rename', 'symlink', 'link', 'chmod', 'truncate', 'archive.')
+
     def _site(self, node, kind, mode=''):
+        # WHERE the call writes: the path argument(s); for Path methods the receiver (and the argument)
+        exprs = []
+        f = node.func
+        recv_is_module = isinstance(f, ast.Attribute) and self._module_of(f.value) is not None
+        recv_only = False
+        if isinstance(f, ast.Attribute) and not recv_is_module and (kind.startswith(self.PATH_METHOD_KINDS) or kind == 'open'):
+            exprs.append(f.value)
+            # Path.write_text(content) / touch() / mkdir(mode) / chmod(mode) ...: the argument is not a path
+            recv_only = kind not in ('rename', 'renames', 'path.replace', 'symlink', 'link', 'archive.extractall', 'archive.extract')
+        two = kind in ('shutil.move', 'shutil.copy', 'shutil.copy2', 'shutil.copyfile', 'shutil.copytree', 'os.replace',
+                       'rename', 'renames', 'symlink', 'link')
+        if not recv_only:
+            exprs += list(node.args[:2 if two else 1])
+        if kind.startswith(('subprocess.', 'os.system', 'os.popen', 'os.exec', 'os.spawn', 'dynamic.')):
+            exprs = list(node.args[:1])
         self.sites.append({'file': self.rel, 'func': self.fn(), 'kind': kind, 'mode': mode,
                            'guards': list(self.guards), 'line': node.lineno,
+                           'targets': [ast.unparse(e) for e in exprs],
+                           'target_names': sorted({n.id for e in exprs for n in ast.walk(e) if isinstance(n, ast.Name)}),
                            'src': ast.unparse(node)[:100]})
 
     def visit_Call(self, node):
@@ -292,8 +329,15 @@ class FileScan(ast.NodeVisitor):
             elif name == 'copy' and not bare and recv_mod is None and len(node.args) >= 2:
                 self._site(node, 'shutil.copy', '')
         if name in MIGRATION_ROUTINES:
+            # only the arguments that say WHERE the routine writes
+            idx = {'write_summary_file_vue': [1], '_migrate_csv_to_rules': [0, 1], 'migrate_v0_to_v1': [0], 'run_migrations': [0],
+                   'init_config': [0], 'write_default_sections': [0], 'download_file': [1], 'perform_update': []}[name]
+            argx = [a for i, a in enumerate(node.args) if i in idx] + \
+                   [kw.value for kw in node.keywords if kw.arg in ('filepath', 'csv_file', 'config_dir', 'target_dir',
+                                                                   'old_config_dir', 'dest_path')]
             self.calls.append({'file': self.rel, 'func': self.fn(), 'callee': name, 'guards': list(self.guards),
-                               'line': node.lineno})
+                               'line': node.lineno, 'targets': [ast.unparse(e) for e in argx],
+                               'target_names': sorted({n.id for e in argx for n in ast.walk(e) if isinstance(n, ast.Name)})})
         self.generic_visit(node)
 
 
@@ -384,6 +428,31 @@ def reachability(scan):
     return reach, missing
 
 
+def target_slice(scan, site, cap=40):
+    """the path expressions of a write site followed by every assignment `name = rhs` (source order) in the enclosing
+    function to a name they mention, transitively: a change of WHERE a file is written changes this list"""
+    per_fn = [(v, rhs) for rel, fn, v, rhs in scan['assigns'] if rel == site['file'] and fn == site['func']]
+    assigned = {v for v, _ in per_fn}
+    names, todo = set(), [n for n in site['target_names'] if n in assigned]
+    while todo:
+        n = todo.pop()
+        if n in names:
+            continue
+        names.add(n)
+        for v, rhs in per_fn:
+            if v == n:
+                try:
+                    for m in ast.walk(ast.parse(rhs.split('aug:', 1)[-1], mode='eval')):
+                        if isinstance(m, ast.Name) and m.id in assigned and m.id not in names:
+                            todo.append(m.id)
+                except SyntaxError:
+                    pass
+    defs = [f'{v} = {rhs}' for v, rhs in per_fn if v in names]
+    if len(defs) > cap:
+        defs = defs[:cap] + [f'... {len(defs) - cap} more']
+    return list(site['targets']) + defs
+
+
 def cstr(s):
     return '"' + s.replace('"', '""') + '"'
 
@@ -418,8 +487,9 @@ def render(scan, reach):
     L.append('Open Scope string_scope.')
     L.append('')
     L.append('Record wsite := { ws_file : string; ws_func : string; ws_kind : string; ws_mode : string;')
-    L.append('                  ws_guards : list string }.')
-    L.append('Record mcall := { mc_file : string; mc_func : string; mc_callee : string; mc_guards : list string }.')
+    L.append('                  ws_guards : list string; ws_target : list string }.')
+    L.append('Record mcall := { mc_file : string; mc_func : string; mc_callee : string; mc_guards : list string;')
+    L.append('                  mc_args : list string }.')
     L.append('')
     L.append(f'Definition scanned_files : list string := {clist(cstr(f) for f in scan["files"])}.')
     L.append('')
@@ -428,13 +498,15 @@ def render(scan, reach):
     for s in scan['sites']:
         rows.append(f'  (* {s["file"]}:{s["line"]}  {s["src"].replace("*)", "* )").replace("(*", "( *")} *)\n'
                     f'  {{| ws_file := {cstr(s["file"])}; ws_func := {cstr(s["func"])}; ws_kind := {cstr(s["kind"])}; '
-                    f'ws_mode := {cstr(s["mode"])};\n     ws_guards := {clist(cstr(g) for g in s["guards"])} |}}')
+                    f'ws_mode := {cstr(s["mode"])};\n     ws_guards := {clist(cstr(g) for g in s["guards"])};\n'
+                    f'     ws_target := {clist(cstr(t) for t in target_slice(scan, s))} |}}')
     L.append(';\n'.join(rows))
     L.append('].')
     L.append('')
     L.append('Definition migration_calls : list mcall := [')
     L.append(';\n'.join(f'  (* {c["file"]}:{c["line"]} *) {{| mc_file := {cstr(c["file"])}; mc_func := {cstr(c["func"])}; '
-                        f'mc_callee := {cstr(c["callee"])}; mc_guards := {clist(cstr(g) for g in c["guards"])} |}}'
+                        f'mc_callee := {cstr(c["callee"])}; mc_guards := {clist(cstr(g) for g in c["guards"])};\n'
+                        f'     mc_args := {clist(cstr(t) for t in target_slice(scan, c))} |}}'
                         for c in scan['calls']))
     L.append('].')
     L.append('')
@@ -467,7 +539,7 @@ def extract(src_root):
     info = {'files': len(scan['files']), 'functions': len(scan['funcs']), 'write_sites': len(scan['sites']),
             'migration_calls': len(scan['calls']),
             'reach_sizes': {k: len(v) for k, v in reach.items()},
-            'sites': [{k: s[k] for k in ('file', 'func', 'kind', 'mode', 'line', 'guards')} for s in scan['sites']]}
+            'sites': [dict({k: s[k] for k in ('file', 'func', 'kind', 'mode', 'line', 'guards')}, target=target_slice(scan, s)) for s in scan['sites']]}
     return render(scan, reach), info
 
 
